@@ -17,7 +17,7 @@ def run(ctx):
                 "headers), R random strings (random, all-ones, all-zeros, small leading numbers); non-trivial = non-empty string; distinct by "
                 "(type, bytes)")
     rng = ctx.rng
-    k, r = (4, 14) if ctx.quick else (10, 40)
+    k, r = (6, 20) if ctx.quick else (10, 40)
     reqs = E.corpus_requests(sess, "C02")
     for gt in sess.ns.types:
         for b in E.bytes_cases(rng, gt, k, r):
